@@ -1,4 +1,5 @@
 import MidoProofs.SrcTie.Vlq
+import MidoProofs.SrcTie.VlqRead
 import MidoProofs.SrcTie.Writer
 import MidoProofs.SrcTie.Reader
 #print axioms Mido.src_vlq_loop1
